@@ -39,7 +39,8 @@ def gen(rng, n, tier):
         if nanm == "T" and nd == 1 and rng.random() < 0.6: deriv = rng.choice(["copy", "copy", "mul", "slice_full"])
         other = "none"
         if adaptive and deriv in ("add", "sub") and rng.random() < 0.7:      # a right operand over another range of the same grid
-            ax2 = [C.gen_axisd(rng, "fixed", w=a[1], shift=a[2], adaptive=True, maxbins=4) for a in axes]
+            ad2 = rng.random() < 0.5      # the right operand itself need not be adaptive (it must stay what it was)
+            ax2 = [C.gen_axisd(rng, "fixed", w=a[1], shift=a[2], adaptive=ad2, maxbins=4) for a in axes]
             other = C13.gen_dh(rng, ax2, dtype=sx.rec(h)["dtype"]); od = sx.rec(other); od["missed"] = [0] * len(od["missed"]); other = [[k, v] for k, v in od.items()]
         yield [["bucket", "%dd/%s/%s" % (nd, "adaptive" if adaptive else "fixed", deriv)], ["kind", "hist"], ["hist", h], ["deriv", deriv], ["other", other],
                ["mut", rng.choice(MUT)], ["target", rng.choice(["parent", "child"])], ["seed", rng.randint(0, 10 ** 6)],
@@ -146,7 +147,7 @@ def impl(case):
             bd = sx.rec(d["hist"])
             if "other" in d and d["other"] != "none": b = C.mk_ah(d["other"])
             else: b = C.mk_ah(d["hist"])
-            if rng.random() < 0.5: b.name = "src"; b.meta_data["custom"] = "x"      # operands with identical metadata
+            if rng.random() < 0.5: b.name = "src"; b.meta_data["custom"] = "x"; b.meta_data["tags"] = ["t", {"k": [1]}]      # operands with identical metadata
             if d.get("nan_missed", "F") == "T" and a.ndim == 1:      # an unknown underflow (as after a fill into a gap), also on integer contents
                 a.underflow = np.nan
             a0, b0 = _snap(a), _snap(b)
